@@ -6,6 +6,7 @@ CONSTANTS
  KeyText <- KT
  ValText <- VT
  Seps <- SepList
+ Convs <- ConvList
 ACTION_CONSTRAINT Emit
-INVARIANTS TypeOK LastWins LengthOK RoundTrip
+INVARIANTS TypeOK LastWins LengthOK RoundTrip ConvOK
 CHECK_DEADLOCK FALSE
